@@ -25,11 +25,22 @@ func (c *vConn) Close() error { c.closed++; return nil }
 type vListener struct {
 	accepted int
 	closed   bool
+	failNext int // the next accepts fail with a temporary error (EMFILE, ECONNABORTED ...)
 }
+
+type vTempErr struct{}
+
+func (vTempErr) Error() string   { return "accept: too many open files" }
+func (vTempErr) Timeout() bool   { return false }
+func (vTempErr) Temporary() bool { return true }
 
 func (l *vListener) Accept() (net.Conn, error) {
 	if l.closed {
 		return nil, errors.New("listener closed")
+	}
+	if l.failNext > 0 {
+		l.failNext--
+		return nil, vTempErr{}
 	}
 	l.accepted++
 	return &vConn{}, nil
@@ -247,4 +258,60 @@ func verifC17_ResizeTwice() {
 	if n2 > 0 {
 		verifAssert(vAvailable(l) == int64(n2), "free-capacity-equals-the-last-cap-when-idle")
 	}
+}
+
+// verifC17_AcceptErrors: temporary errors of the inner listener (fd exhaustion, aborted
+// connections) neither leak nor create permits: the serve loop retries as net/http does, the
+// number of open connections never exceeds the cap, and when all are closed the whole cap is
+// free again.
+func verifC17_AcceptErrors() {
+	capacity := verifChoose("cap", 2) + 1
+	inner := &vListener{failNext: verifChoose("temporaryErrors", 3)}
+	l := NewLimitListener(inner, uint32(capacity))
+	var conns [4]net.Conn
+	open := 0
+	want := verifChoose("connectionsWanted", capacity+1) + 1 // up to cap+1
+	errs := 0
+	live := 0 // accepted and not yet closed
+	var blocked bool
+	go func() {
+		for open < want {
+			c, err := l.Accept()
+			if err != nil {
+				ne, ok := err.(net.Error)
+				verifAssert(ok && ne.Temporary(), "only-temporary-errors-here")
+				errs++
+				continue // net/http retries after a temporary error
+			}
+			conns[open] = c
+			open++
+			live++
+			verifAssert(live <= capacity, "open-connections-never-exceed-the-cap")
+		}
+	}()
+	verifQuiesce()
+	if want > capacity {
+		verifAssert(open == capacity, "connection-beyond-the-cap-held-back")
+		blocked = true
+		verifCover("held-back")
+	} else {
+		verifAssert(open == want, "connections-below-the-cap-accepted")
+	}
+	if inner.failNext == 0 && errs+open > open {
+		verifCover("temporary-error-seen")
+	}
+	// close everything (the held-back client gets in when the first one closes)
+	n0 := open
+	for i := 0; i < n0; i++ {
+		live--
+		conns[i].Close()
+		verifQuiesce()
+	}
+	if blocked {
+		verifAssert(open == want, "held-back-connection-admitted-after-a-close")
+		live--
+		conns[open-1].Close()
+		verifQuiesce()
+	}
+	verifAssert(vAvailable(l) == int64(capacity), "released-capacity-is-usable-again-no-lost-or-extra-permits")
 }
